@@ -32,6 +32,10 @@ XIn2 == Ext(InputD("In", <<ArgD("h", I)>>))
 \* an extension that makes an existing object implement an interface: no type is added, only the relation changes
 XAImpl == Ext(ObjectD("A", <<"N">>, <<FieldD("name", S, <<>>)>>))
 \* an explicit schema block that names the query root only, while objects called Mutation / Subscription exist or arrive later
+\* schema extensions: they add operation roots to a schema DECLARED by a schema block; the roots made up from the
+\* types called Query / Mutation / Subscription are no schema block and cannot be extended
+XSchemaSub == Ext(SchemaD(<<RootD("subscription", "Subscription")>>))
+XSchemaMut == Ext(SchemaD(<<RootD("mutation", "Mutation")>>))
 DTop == ObjectD("Top", <<>>, <<FieldD("n", I, <<>>)>>)
 DSchemaTop == SchemaD(<<RootD("query", "Top")>>)
 
@@ -53,7 +57,7 @@ FXUnion == Ext(UnionD("U", <<"E">>))
 GoodDocs ==
   { <<DQuery, DA, DB, DN>>, <<DU1, DE, DIn>>, <<DMut>>, <<DTag, DDate>>, <<XQuery>>, <<XA>>, <<XE, XU>>, <<XIn>>,
     <<DSchema>>, <<DSchemaQ>>, <<DE>>, <<DIn, DMut>>, <<DMut2>>, <<DSub>>, <<XQuery2, XE2>>,
-    <<XAImpl>>, <<DTop, DSchemaTop>> }
+    <<XAImpl>>, <<DTop, DSchemaTop>>, <<DSub, XSchemaSub>>, <<XSchemaMut>> }
 BadDocs ==
   { <<Syntax>>, <<XQuery, Syntax>>, <<DSchemaQ, Syntax>>, <<DE, ReadFault>>, <<XE, ReadFault, XU>>,
     <<XE, FXNotFound>>, <<XQuery, FEmpty>>, <<DSchemaQ, FUndef>>, <<FDup>>, <<XIn, FXDupField>>, <<XQuery, FXKind>>,
